@@ -16,6 +16,7 @@ func init() {
 			c.ruleBigIntCanon()
 			c.ruleBigSign("R-BIGSIGN", "pkg/scale")
 			c.ruleFreshElem("R-FRESHELEM", "pkg/scale")
+			c.ruleFreshStruct()
 			c.min("R-FRESHELEM", 3)
 			c.ruleTagDefault("R-TAGDEFAULT", "pkg/scale", "(*decodeState).decodeBool", "(*decodeState).decodePointer", "(*decodeState).decodeResult")
 			c.min("R-TAGDEFAULT", 3)
@@ -37,6 +38,7 @@ func init() {
 			c.ruleCompactEnc("R-COMPACT/enc")
 			c.min("R-COMPACT/enc", 4)
 			c.ruleBigSign("R-BIGSIGN", "pkg/scale")
+			c.ruleScaleMapAndBigRange()
 			c.ruleBigTrunc("R-BIGTRUNC", "pkg/scale", "(*encodeState).encodeBigInt")
 			c.min("R-BIGTRUNC", 4)
 			c.ruleCodecSwitchAgree("R-CODECSWITCH")
